@@ -1662,6 +1662,68 @@ def release_supplement(tier, seed, jobs):
     return dict(scenarios=len(scen), schedules=schedules, executions=len(execs), failures=failures)
 
 
+def scen_teardown(rng, n):
+    """C06 through the THREAD-CREATING operators (they keep hooks, timers and controllers of their own): a hot source -
+    a plain subject, or ref_count() / replay() over it - feeds timeout / debounce / delay / observe_on / subscribe_on /
+    sample / take_until(timer); every subscription ends by itself (downstream has all it needs, an unsubscribe from another
+    thread, the source's terminal); afterwards no subject may hold an observer and no probed source may be live"""
+    ops = ["(timeout 20 %s)", "(debounce 5 %s)", "(delay 2 %s)", "(observe_on %s)", "(subscribe_on %s)", "(sample %s (interval 10))",
+           "(take_until %s (timer 30))", "(timeout 20 (observe_on %s))", "(map inc (timeout 25 (map inc %s)))", "(debounce 5 (timeout 20 %s))"]
+    srcs = [("", "(ref a)"), ("(conn x ref_count (ref a))", "(ref x)"), ("(conn x replay (ref a))", "(ref x)"),
+            ("(conn x ref_count (map inc (ref a)))", "(map inc (ref x))")]
+    out = []
+    for op in ops:
+        for conn, src in srcs:
+            p = op % src
+            body = "(subject a plain) %s" % conn
+            out.append("(conc C06c-%d (pipe %s (sub (take 1 %s) (react)) (hnext a 1) (settle 30) (hnext a 2) (settle 40)))" % (len(out), body, p))
+            out.append("(conc C06c-%d (pipe %s (sub %s (react)) (hnext a 1) (unsub-after 0 3) (settle 12) (hnext a 2) (settle 40)))" % (len(out), body, p))
+            out.append("(conc C06c-%d (pipe %s (sub %s (react)) (hnext a 1) (settle 8) (herror a 6) (settle 40)))" % (len(out), body, p))
+            out.append("(conc C06c-%d (pipe %s (sub %s (react)) (sub (take 1 %s) (react)) (hnext a 1) (unsub-after 0 3) (settle 30) (hnext a 2) (settle 40)))" % (len(out), body, p, p))
+    return out
+
+
+def oracle_teardown(payload):
+    d = parse_pipe(payload)
+    if d is None:
+        return "malformed record"
+    m = re.search(r"S=(\S*) L=(\S*) O=(\S*) st=(\w+)", d["final"])
+    if not m:
+        return None         # no final observation (the scenario was cut): nothing to judge
+    subs, live, counts, st = m.groups()
+    if st != "ok":
+        return None
+    if "T" in live:
+        return "after every subscription ended a source still sees is_subscribed()==true (L=%s)" % live
+    if any(c not in ("", "0") for c in counts.split(",")):
+        return "after every subscription ended a subject still holds an observer (observer counts O=%s)" % counts
+    return None
+
+
+def teardown_supplement(tier, seed, jobs):
+    """C06, concurrent part: `scen_teardown` under seeded schedules in virtual time, judged by `oracle_teardown` on the
+    final observation (taken after quiescence; every subscription of these scenarios ends by itself)."""
+    build()
+    rng = random.Random(seed * 7919 + 6)
+    thorough = tier == "thorough"
+    scen = scen_teardown(rng, 0)
+    iters = 300 if thorough else 24
+    lines = run_scenarios(scen, seed, iters, "mixed", jobs)
+    execs = [l for l in lines if l.count(" | ") >= 3]
+    done = [l for l in lines if " | done " in l]
+    schedules = sum(int(re.search(r"iterations=(\d+)", l).group(1)) for l in done)
+    by_id = {x.split()[1]: x for x in scen}
+    failures = []
+    for l in execs:
+        sid, meta, status, detail, payload = parse_exec(l)
+        if status != "ok":
+            continue        # deadlocks / step limits are C07's business
+        msg = oracle_teardown(payload)
+        if msg:
+            failures.append((l, by_id.get(sid, sid), msg))
+    return dict(scenarios=len(scen), schedules=schedules, executions=len(execs), failures=failures)
+
+
 def replay(prop, r, path):
     build()
     sc = r.get("scenario")
@@ -1678,6 +1740,8 @@ def replay(prop, r, path):
     cfg = CONC.get(prop)
     if r.get("supplement") == "release":
         cfg = dict(model=None, oracle=oracle_release)
+    if r.get("supplement") == "teardown":
+        cfg = dict(model=None, oracle=oracle_teardown)
     if prop == "C07":
         def lock_oracle(payload, _detail=[None]):
             return None
